@@ -20,6 +20,7 @@ import (
 	"encoding/base64"
 	"encoding/hex"
 	"encoding/json"
+	"encoding/xml"
 	"errors"
 	"fmt"
 	"io"
@@ -1515,12 +1516,13 @@ func (s *S3Proxy) ListBucketsAndOwners(ctx context.Context) ([]s3response.Bucket
 	}
 	defer resp.Body.Close()
 
-	var buckets []s3response.Bucket
-	if err := json.Unmarshal(body, &buckets); err != nil {
+	// the admin API answers with an XML ListBucketsResult document (not JSON)
+	var res s3response.ListBucketsResult
+	if err := xml.Unmarshal(body, &res); err != nil {
 		return []s3response.Bucket{}, err
 	}
 
-	return buckets, nil
+	return res.Buckets, nil
 }
 
 func handleError(err error) error {
